@@ -172,20 +172,28 @@ def region_decl_whitespace(doc):
     return d[0] == 'wf' and d[1] is not None and ('\n' in doc[:d[2]] or d[3])
 
 
-_STRAY = re.compile(r'''encoding=["'][^"'\n]+["'][^\n]*?\?>''')
+_STRAY = re.compile(r'''encoding=["'][^"']+["'][^\n]*?\?>''')
 
 
 def region_stray_attribute(doc):
     """C20-xmldecl-stray-attribute: the document starts with '<?xml', declares no encoding (declaration without
-    EncodingDecl, or no declaration at all: another PI target such as xml-stylesheet), and the first line holds
-    `encoding=<quoted>` followed by `?>` within the first 2048 characters"""
+    EncodingDecl, or no declaration at all: another PI target such as xml-stylesheet), and somewhere on its first line
+    (after at least one character) `encoding=` + quote starts a quoted value (which may span lines) that is followed,
+    on the line where it ends, by `?>` — all within the first 2048 characters"""
     if spec_bom(doc) or not doc.startswith('<?xml'):
         return False
     d = parse_xmldecl(doc)
     if d[0] == 'malformed' or (d[0] == 'wf' and d[1] is not None):
         return False
-    first = doc[:2048].split('\n', 1)[0]
-    return _STRAY.search(first) is not None
+    buf = doc[:2048]
+    nl = buf.find('\n')
+    limit = len(buf) if nl < 0 else nl
+    i = buf.find('encoding=', 6)
+    while 0 <= i < limit:
+        if _STRAY.match(buf, i):
+            return True
+        i = buf.find('encoding=', i + 1)
+    return False
 
 
 # ----------------------------------------------------------------------------------------------
